@@ -336,10 +336,10 @@ Definition lex_err_kind (e : err) : Prop := e = Invalid 10 \/ e = Invalid 11 \/ 
 
 Lemma parse_bound_err : forall g e, parse_bound g = Err e -> e = ValueErr.
 Proof.
-  intros g e H. unfold parse_bound in H. destruct g as [|c g]; [discriminate|].
-  unfold parse_int in H. destruct (strip (c :: g)) as [|c' s'].
-  - simpl in H. congruence.
-  - destruct (forallb is_digit (c' :: s')); simpl in H; congruence.
+  intros g e H. unfold parse_bound in H.
+  destruct (strip g) as [|c' s'] eqn:Es; [discriminate|].
+  unfold parse_int in H. rewrite Es in H.
+  destruct (forallb is_digit (c' :: s')); simpl in H; congruence.
 Qed.
 
 Lemma mk_quant_err : forall g1 g2 e, mk_quant g1 g2 = Err e -> e = Invalid 10 \/ e = ValueErr.
